@@ -832,7 +832,7 @@ static void do_drive(const char *name, int c, int s)
     emit(&e);
 }
 
-static void do_close(int s)
+static void do_close(int s, bool cleanup)
 {
     struct ev e;
     if (s <= 0 || s >= MAXS)
@@ -845,7 +845,14 @@ static void do_close(int s)
     }
     e.s = s; e.k = socks[s].kind; e.tp = socks[s].tp;
     sc_window();
-    e.ret = xcm_close(socks[s].s);
+    if (cleanup) {
+	/* the socket is given up without being closed towards the peer (what a process does with sockets that belong
+	   to another process after a fork): its share of the process-local context cache is released all the same */
+	xcm_cleanup(socks[s].s);
+	e.ret = 0;
+	e.why = "cleanup";
+    } else
+	e.ret = xcm_close(socks[s].s);
     e.err = e.ret < 0 ? errno : 0;
     socks[s].s = NULL;
     fill_window(&e);
@@ -870,7 +877,7 @@ static void close_all(void)
     for (int pass = 0; pass < 2; pass++)
 	for (int i = 1; i < MAXS; i++)
 	    if (socks[i].s != NULL && (pass == 1 || strcmp(socks[i].kind, "server") != 0))
-		do_close(i);
+		do_close(i, false);
 }
 
 static void new_execution(int x, const char *label)
@@ -982,8 +989,8 @@ int main(int argc, char **argv)
 	    do_open(atoi(w[1]), w[2], atoi(w[3]), w[4], &w[5]);
 	else if ((strcmp(w[0], "drive") == 0 || strcmp(w[0], "chk") == 0) && n == 3)
 	    do_drive(w[0], atoi(w[1]), atoi(w[2]));
-	else if (strcmp(w[0], "close") == 0 && n == 2)
-	    do_close(atoi(w[1]));
+	else if (strcmp(w[0], "close") == 0 && (n == 2 || n == 3))
+	    do_close(atoi(w[1]), n == 3 && strcmp(w[2], "cu") == 0);
 	else if (strcmp(w[0], "ns") == 0 && n == 2)
 	    do_ns(w[1]);
 	else if (strcmp(w[0], "end") == 0) {
